@@ -18,6 +18,7 @@
       (`c06_volume_roundtrip_affine_partial` gives the affine case).
 -/
 import CijProofs.Lemmas.V2P
+import Generated.PressureBaseSpec
 namespace Cij.C06
 
 open Cij.V2P
@@ -420,5 +421,13 @@ theorem pressure_base_volumes_is_v2p (q : Qha α) (volumeBase : String → Optio
   simp
 
 end Wiring
+
+/-- **model-is-source** for the named properties of `CijPressureBaseInterface`: the list `(property, volume-base attribute it
+converts)` of the model is the one the translator extracts from `calculator.py` on this run, and every property converts the
+attribute of its own name (so `pressure_base.x = v2p(volume_base.x)` for all eight, and by `__getattr__` for every other name). -/
+theorem pressure_base_props_are_source :
+    V2P.namedProperties = Generated.pressureBaseV2pProps ∧ (∀ e ∈ Generated.pressureBaseV2pProps, e.1 = e.2) ∧
+    Generated.pressureBaseModulusProps = [("modulus_adiabatic", "modulus_adiabatic"), ("modulus_isothermal", "modulus_isothermal")] := by
+  refine ⟨rfl, by decide, rfl⟩
 
 end Cij.C06
